@@ -167,6 +167,10 @@ def bounds(tier):
     common = {
         "algorithms": L.ALGOS, "models": {k: f"{v['kind']} dim {v['dim']} sources {v['ns']}" for k, v in L.MODELS.items()},
         "seeds": "{0, 1, VERIF_SEED}", "n_iter": L.N_ITER, "prior activities": list(L.PRIORS),
+        "same_object": "a model object fitted in the process (Gibbs, with and without annealing), then the seeded personalize (3 algorithms) / "
+                       "simulate call made twice on it: identical bytes",
+        "n_jobs": f"personalize(scipy_minimize, seed=0, n_jobs in {[1, 2] if tier == 'quick' else [1, 2, 3]}) on {NJOBS_MODELS[tier]} in a new non-daemonic "
+                  f"interpreter: cohorts {NJOBS_COHORTS} one after the other, each personalised twice in a row (worker pool reused)",
         "cohorts": "5 individuals; fits also on 7 individuals (more than the default nb_of_patients_to_plot) x 4 logging configurations",
         "hash seeds of new interpreters": HASHSEEDS,
         "logging alphabets": "print {None,1,3} x save {None,1,2} x plot {None,2,3} x patient plots {None,2} x sourcewise {F,T} x "
@@ -227,6 +231,14 @@ def shards(tier, seed):
             for model in L.MODELS:
                 for s in seeds:
                     out.append({"kind": "interp", "cases": [{"algo": algo, "model": model, "seed": s}]})
+
+    for m in NJOBS_MODELS[tier]:
+        out.append({"kind": "njobs", "model": m, "n_jobs": [1, 2] if quick else [1, 2, 3]})
+    for algo in list(L.PERSONALIZE) + ["simulate"]:
+        for m in L.MODELS:
+            if algo == "simulate" and m != "logistic":
+                continue
+            out.append({"kind": "same_object", "algo": algo, "model": m, "seeds": [0] if quick else seeds})
 
     budget = 25.0 if quick else 60.0
 
@@ -494,11 +506,107 @@ def run_interp(acc, shard):
         _run_and_judge(acc, dict(c, interp="pool worker after new interpreter"), b)
 
 
+NJOBS_MODELS = {"quick": ["logistic_d2_s1_diag"], "thorough": ["logistic_d2_s1_diag", "linear_d2_s1_diag", "joint_d1_s0_scalar"]}
+# the first cohort comes back after two other ones: same seeded call at three different points of the interpreter's history
+NJOBS_COHORTS = [["a", "b", "c"], ["c", "d", "e"], ["d", "a"], ["a", "b", "c"]]
+
+
+def run_njobs(acc, shard):
+    """personalize(scipy_minimize, seed=0, n_jobs=k) with k >= 2 (a configuration of the algorithm like any other): in a
+    new non-daemonic interpreter every cohort is personalised twice in a row and the first cohort once more at the end, with
+    worker processes that have served other calls in between; every repetition must return the same bytes."""
+    from . import c07
+
+    model = shard["model"]
+    n_jobs_list = shard["n_jobs"]
+    res = c07.njobs_subprocess(model, NJOBS_COHORTS, n_jobs_list)
+    for nj in n_jobs_list:
+        if nj > 1 and res["effective"][str(nj)] != nj:
+            raise RuntimeError(f"harness: joblib would run n_jobs={nj} with {res['effective'][str(nj)]} workers")
+        runs = res["results"][str(nj)]
+        feat = "n_jobs=1" if nj == 1 else "n_jobs>1"
+        for c, ids in enumerate(NJOBS_COHORTS):
+            got = runs[c]
+            case = {"check": "njobs", "model": model, "n_jobs": n_jobs_list, "cohort": ids, "focus_n_jobs": nj}
+            acc.evaluation(2)
+            acc.nontriv(json.dumps(case, sort_keys=True))
+            if "exc" in got:
+                acc.violation(f"personalize(scipy_minimize)|{got['exc'][0]}|{feat}", got["exc"][1], case)
+                acc.outcome(f"njobs:raise:{got['exc'][0]}")
+                continue
+            again = got.get("again") or {}
+            if "exc" in again or again.get("params") != got["params"] or again.get("order") != got["order"]:
+                acc.violation(f"personalize(scipy_minimize)|result differs when the same seeded call is repeated|{feat}",
+                              f"cohort {ids}, n_jobs={nj}: first {got['params']}, then {again.get('params', again.get('exc'))}", case)
+                acc.outcome("njobs:repeat differs")
+                continue
+            acc.outcome(f"njobs:repeat identical:{feat}")
+        first, last = runs[0], runs[len(NJOBS_COHORTS) - 1]
+        if "exc" not in first and "exc" not in last and first["params"] != last["params"]:
+            case = {"check": "njobs", "model": model, "n_jobs": n_jobs_list, "cohort": NJOBS_COHORTS[0], "focus_n_jobs": nj}
+            acc.violation(f"personalize(scipy_minimize)|result differs after other cohorts were personalised in the process|{feat}",
+                          f"cohort {NJOBS_COHORTS[0]}, n_jobs={nj}: {first['params']} at first, {last['params']} after two other cohorts", case)
+
+
+def run_same_object(acc, shard):
+    """The history 'fitted earlier in the process' on the SAME model object: the object is fitted (seeded), then the seeded
+    personalize / simulate call is made twice in a row on it; the two answers must be the same bytes (a repeated seeded call)."""
+    import io
+    from contextlib import redirect_stdout
+
+    algo, model_name = shard["algo"], shard["model"]
+    for seed in shard["seeds"]:
+        for fit_algo in ("fit_gibbs", "fit_annealing"):
+            case = {"check": "same_object", "algo": algo, "model": model_name, "seed": seed, "fit": fit_algo}
+            acc.evaluation(2)
+            acc.nontriv(json.dumps(case, sort_keys=True))
+            model, ds = L.make_model_and_data(model_name, 0, 5)
+            site = L.algo_site(algo)
+            try:
+                with redirect_stdout(io.StringIO()):
+                    name_f, kw_f = L.algo_kwargs(fit_algo, 5)
+                    model.fit(ds, name_f, **kw_f)
+            except Exception as e:  # noqa: BLE001 - the fit is only the history here (judged by the main grid)
+                acc.outcome(f"same_object:fit raised {type(e).__name__}")
+                continue
+            digests, values = [], []
+            failed = None
+            for rep in range(2):
+                name, kw = L.algo_kwargs(algo, seed)
+                try:
+                    with redirect_stdout(io.StringIO()):
+                        res = model.personalize(ds, name, **kw) if algo in L.PERSONALIZE else model.simulate(algorithm=name, **kw)
+                    parts = L.observe_result(algo, model, res)
+                    digests.append(L.digest_parts(parts))
+                    values.append({l: L._readable(v) for l, v in parts})
+                except Exception as e:  # noqa: BLE001
+                    failed = (rep, e)
+                    break
+            if failed is not None:
+                rep, e = failed
+                acc.violation(f"{site}|{type(e).__name__}|{'second' if rep else 'first'} call on a model fitted in the process",
+                              f"{type(e).__name__}: {str(e)[:300]}", case)
+                acc.outcome(f"same_object:raise:{type(e).__name__}")
+                continue
+            if digests[0] != digests[1]:
+                parts = sorted(k for k in set(values[0]) | set(values[1]) if values[0].get(k) != values[1].get(k))
+                acc.violation(f"{site}|result differs when the same seeded call is repeated|model object fitted earlier in the process",
+                              f"differing parts: {parts[:8]}", case, expected={k: values[0].get(k) for k in parts[:3]},
+                              observed={k: values[1].get(k) for k in parts[:3]})
+                acc.outcome("same_object:repeat differs")
+            else:
+                acc.outcome("same_object:repeat identical")
+
+
 def run_shard(shard):
     acc = Acc()
     L.ensure_env()
     try:
-        if shard["kind"] == "interp":
+        if shard["kind"] == "same_object":
+            run_same_object(acc, shard)
+        elif shard["kind"] == "njobs":
+            run_njobs(acc, shard)
+        elif shard["kind"] == "interp":
             run_interp(acc, shard)
         elif shard["kind"] == "cases":
             keys = [ref_key(c) for c in shard["cases"]]
@@ -530,6 +638,14 @@ def cleanup():
 def replay(case):
     L.ensure_env()
     out = []
+    if case.get("check") == "same_object":
+        acc = Acc()
+        run_same_object(acc, {"algo": case["algo"], "model": case["model"], "seeds": [case["seed"]]})
+        return [{"signature": v["signature"], "message": v["message"]} for v in acc.violations.values()]
+    if case.get("check") == "njobs":
+        acc = Acc()
+        run_njobs(acc, {"model": case["model"], "n_jobs": case["n_jobs"]})
+        return [{"signature": v["signature"], "message": v["message"]} for v in acc.violations.values()]
     if case.get("check") == "interp":
         hs = case["hashseeds"]
         results = L.run_in_new_interpreters([(case["cases"], h) for h in hs], concurrency=2)
